@@ -54,6 +54,7 @@ pub fn replay(prop: &str, case: &str) -> i32 {
                 }
                 all
             };
+            let out: Vec<_> = out.into_iter().filter(|v| v.prop == prop).collect();
             for v in &out {
                 println!("violated: {} {}: {}", v.prop, v.kind, v.detail);
             }
@@ -65,7 +66,7 @@ pub fn replay(prop: &str, case: &str) -> i32 {
             }
         }
         #[cfg(feature = "b")]
-        "C08" if get(&parts, "shared_state_seed").is_some() => {
+        "C08" | "C04" if get(&parts, "shared_state_seed").is_some() => {
             let gs = match GraphSpec::decode(get(&parts, "g").unwrap_or("")) {
                 Ok(g) => g,
                 Err(e) => {
@@ -76,6 +77,7 @@ pub fn replay(prop: &str, case: &str) -> i32 {
             let seed: u64 = get(&parts, "shared_state_seed").and_then(|x| x.parse().ok()).unwrap_or(0);
             let (out, made) = crate::sharedstate::shared_state_case(&gs, seed);
             println!("calls made with one shared InterruptibilityState: {made}");
+            let out: Vec<_> = out.into_iter().filter(|v| v.prop == prop).collect();
             for v in &out {
                 println!("violated: {} {}: {}", v.prop, v.kind, v.detail);
             }
@@ -130,6 +132,7 @@ pub fn replay(prop: &str, case: &str) -> i32 {
             let c = Ctx { gs: &sub.gs, ug: &sub.ug, built: &sub.built, rs: &rs };
             let mut out = Vec::new();
             (plan.check)(&c, &tr, &mut out);
+            let out: Vec<_> = out.into_iter().filter(|v| v.prop == prop).collect();
             for v in &out {
                 println!("violated: {} {}: {}", v.prop, v.kind, v.detail);
             }
